@@ -59,6 +59,17 @@ prop("C13",
      ["numerical equality of each formula with its defining formula", "graph evaluation on concrete properties"],
      COMMON_ASSUMPTIONS)
 
+prop("C14",
+     ["DT1", "DT2", "DT3", "DT4", "LN1"],
+     "Abstract dtype interpretation of every scale method over dtype witnesses (zero-length arrays, Python-scalar coefficients; NumPy as "
+     "oracle of its own promotion rules) against the table read from MultiScaling._compute_scale_dtype, for every scaling class x real "
+     "numeric raw dtype (thorough: both byte orders, NumPy-scalar coefficients, all Add/Subtract pairs); dtype source of every empty "
+     "result per accessor kind; raw dtype table vs receivers; native byte-order normalisation where raw arrays are created; single "
+     "funnel for value counts.",
+     ["that len() equals the number of values actually decoded for arbitrary files (run-time)",
+      "complex and boolean raw types under scaling", "raw_timestamps=True (exempt by the property)"],
+     COMMON_ASSUMPTIONS + ["scaling coefficients read from a file are Python scalars (StructType.read returns struct.unpack results)"])
+
 # ---------------------------------------------------------------------------
 # MANIFEST texts
 LEVEL_TEXT = {
@@ -78,7 +89,11 @@ LEVEL_TEXT["C02"] = ("Partial claim (structural necessary conditions): copy-on-w
                      "and typestate analyses cover every path of the parser instead.")
 LEVEL_TEXT["C13"] = ("Partial claim: purity (never modifies raw data), dispatch/arity, lookup order and application points of scaling are decided "
                      "structurally; numerical equality of formulas is not.")
+LEVEL_TEXT["C14"] = ("Claim (structural): channel.dtype is computed symbolically while the data's dtype is whatever NumPy promotion produces; the "
+                     "abstract dtype interpreter covers every raw type x scale class pair (the suite builds a few), and the empty-result, "
+                     "receiver-table, byte-order and length-funnel rules cover the remaining clauses.")
 TECHNIQUE = {
+    "C14": "static analysis: abstract interpretation over a dtype lattice (NumPy as promotion oracle), table extraction and comparison, dataflow of dtype sources",
     "C02": "static analysis: alias/freshness dataflow, typestate abstract interpretation of the object list and has_data, control-dependence of raises",
     "C13": "static analysis: interprocedural alias and in-place effect analysis; dispatch and role-flow rules",
     "C05": "static analysis: typestate (cursor P/U) abstract interpretation with generator continuations, single-writer and cache-pairing rules",
